@@ -104,6 +104,9 @@ func runHistory(r *Run, g *Gen, hc histCfg) {
 		if len(live) == 0 && (kind == 1 || kind == 2 || kind == 5) {
 			kind = 0
 		}
+		if hc.up4 && hc.allowKill && !killed && r.Ch.Choose(60, "mass-attach-then-kill") == 1 {
+			kind = 9
+		}
 		if len(live) >= 4 && kind == 0 {
 			kind = 1
 		}
@@ -161,6 +164,32 @@ func runHistory(r *Run, g *Gen, hc histCfg) {
 					// stays taken - the listed no-rollback finding)
 					r.TaintRun("up4-refused-establishment")
 				}
+			}
+		case 9: // P4Runtime: many sessions, each with a filter of its own, then kill -9 and
+			// restart: the start-up clear meets tables with well over a hundred entries
+			n := 21 + r.Ch.Choose(14, "mass-n")
+			cnt := 0
+			for i := 0; i < n && r.AgentAlive() && r.Hard() == 0; i++ {
+				s := g.Session(p, SessShape{BaseSDF: g.Flow(false), TEIDChoose: true})
+				res := p.Establish(s)
+				if !res.Accepted {
+					if res.Rx != nil && r.AgentAlive() {
+						r.TaintRun("up4-refused-establishment")
+					}
+					break
+				}
+				cnt++
+				r.Accepted++
+			}
+			r.Op("%d sessions attached in a row (%d entries in the switch tables)", cnt, r.W.P4.EntryCount())
+			r.Skel("mass-attach")
+			r.Probe("mass-attach-before-kill")
+			if r.AgentAlive() && r.Hard() == 0 {
+				hc.checkImage(fmt.Sprintf("after %d sessions were attached in a row", cnt), "mass-attach")
+			}
+			if r.AgentAlive() && r.Hard() == 0 {
+				r.Sim.Kill(r.Inc)
+				armKill = true
 			}
 		case 1: // modify
 			s := live[r.Ch.Choose(len(live), "sess")]
